@@ -42,6 +42,25 @@ func init() {
 		},
 	})
 	regProp(&propDef{
+		id:   "C20",
+		gen:  func(seed uint64, th bool) *Plan { return genLifePlan(seed, th) },
+		chk:  newLifeChecker,
+		rule: "1-3 start/stop cycles of an emulator on one port, optionally with a second instance on another port in the same process; before each termination 1-4 clients are brought into different states (idle, request half delivered, inside MULTI with a queue, blocked with timeout 0, not reading large replies, busy pipeline); the termination (Close, or RequestTermination then WaitForTermination) is issued from an admin task at a tape-chosen moment; afterwards every old connection sends further commands, a newcomer tries to connect, a successor is created and started on the same port and a fresh client inspects it; oracles: every lifecycle call returns, nothing sent after termination returned is served, connects are refused while nothing listens, the port binds again at once, the successor is empty and lists only its own connection, the second instance's clients are never closed or starved, see only their own connections and their replies refine their model; non-trivial = a termination happened while at least one client was mid-frame, in MULTI, blocked or not reading; distinct = distinct scheduler event sequence",
+		nontrivial: func(res *RunResult) bool {
+			return res.Extra["after-close-attempts"] >= 1 && res.Extra["successor-empty"] >= 1
+		},
+		quickRuns:       2000,
+		thoroughRuns:    100000,
+		quickSeconds:    75,
+		thoroughSeconds: 900,
+		level:           "exploration",
+		explanation:     "Several emulator instances live in one synctest bubble; the listener is the simulator's port table (binding a bound port fails, Close frees it).",
+		assumptions: []string{
+			"the simulated listener models the kernel's port table without TIME_WAIT effects",
+			"'bounded time' for Close is read as: the call returns before the run's step budget and idle-time cap are exhausted while all runnable goroutines are being scheduled",
+		},
+	})
+	regProp(&propDef{
 		id:   "C19",
 		gen:  func(seed uint64, th bool) *Plan { return genPersistPlan(seed, th) },
 		chk:  newPersistChecker,
